@@ -36,6 +36,7 @@ type reflState struct {
 	kinds map[string]int64 // name -> constant
 	names map[int64]string
 	retFromParam map[*ssa.Function]int
+	retValidMemo map[*ssa.Function]bool
 }
 
 func isReflectValue(t types.Type) bool {
@@ -191,6 +192,52 @@ func (rs *reflState) install() {
 		}
 		return n, true
 	}
+	// a helper's interface / pointer parameter is non-nil when every call site lies on the non-nil side of a nil test
+	// of the very argument (the caller tested, the helper converts)
+	na.hookEntry = func(fn *ssa.Function, init disj) {
+		calls := na.callers[fn]
+		if len(calls) == 0 || fn.Parent() != nil {
+			return
+		}
+		for i, prm := range fn.Params {
+			if !isPointerLike(prm.Type()) && !types.IsInterface(prm.Type()) {
+				continue
+			}
+			all := true
+			for _, ci := range calls {
+				if i >= len(ci.Common().Args) {
+					all = false
+					break
+				}
+				arg := stripChange(ci.Common().Args[i])
+				okSite := false
+				for _, cd := range condsAt(ci.Block()) {
+					bo, ok := cd.V.(*ssa.BinOp)
+					if !ok || (bo.Op != token.EQL && bo.Op != token.NEQ) {
+						continue
+					}
+					var other ssa.Value
+					if isNilConst(bo.Y) {
+						other = bo.X
+					} else if isNilConst(bo.X) {
+						other = bo.Y
+					}
+					if other == nil || stripChange(other) != arg {
+						continue
+					}
+					if (bo.Op == token.NEQ) == cd.True {
+						okSite = true
+					}
+				}
+				if !okSite {
+					all = false
+				}
+			}
+			if all {
+				init[accessPath(prm)] = 1
+			}
+		}
+	}
 	na.hookPhi = func(n disj, d disj, ph *ssa.Phi, edge ssa.Value) {
 		if !isReflectValue(ph.Type()) {
 			return
@@ -280,6 +327,15 @@ func (rs *reflState) install() {
 							}
 						})
 					}
+					if rs.retValid(g) {
+						key := reflKey(ex)
+						return setAll(func(n, d disj) {
+							rs.clearFacts(n, key)
+							n["rv:"+key] = 1
+							n[fmt.Sprintf("rk:%s:%d", key, rs.kinds["Interface"])] = 0
+							n[fmt.Sprintf("rk:%s:%d", key, rs.kinds["Ptr"])] = 0
+						})
+					}
 				}
 			}
 		}
@@ -321,6 +377,42 @@ func (rs *reflState) kindReceiver(v ssa.Value) ssa.Value {
 		}
 	}
 	return nil
+}
+
+// retValid: on every success return of g (error result nil) the first result is a valid reflect.Value — decided by
+// analysing g under its entry facts (hookEntry).
+func (rs *reflState) retValid(g *ssa.Function) bool {
+	if v, ok := rs.retValidMemo[g]; ok {
+		return v
+	}
+	if rs.retValidMemo == nil {
+		rs.retValidMemo = map[*ssa.Function]bool{}
+	}
+	rs.retValidMemo[g] = false
+	if len(g.Blocks) == 0 || g.Signature.Results().Len() < 1 || !isReflectValue(g.Signature.Results().At(0).Type()) || !rs.na.scope[g] {
+		return false
+	}
+	okAll := true
+	n := 0
+	for _, ret := range returnsOf(g) {
+		rv := returnValues(ret)
+		if len(rv) > 1 && !isNilConst(stripConv(rv[len(rv)-1])) {
+			continue // an error return: the caller does not use the value
+		}
+		n++
+		st := rs.na.stateAt(ret)
+		if st == nil {
+			continue
+		}
+		for _, d := range st {
+			if rs.valid(d, reflKey(rv[0])) != 1 {
+				okAll = false
+			}
+		}
+	}
+	res := okAll && n > 0
+	rs.retValidMemo[g] = res
+	return res
 }
 
 // retParam: g's first result is, on every return, its reflect.Value parameter j or a fresh valid value.
